@@ -86,6 +86,7 @@ class Editor:
         self.lost = []      # assignments that did not take effect
         self.must = {}      # (id(obj), attr) -> unique token that has to show up in db.dbml from now on
         self.keep = []      # keeps edited objects alive so ids stay unique
+        self.shared = set() # ids of enum items that belong to two enums (see add_derived_enum)
         self.once = []      # tokens written into ONE free-text slot in place: they may show up in db.dbml at most once
 
     def tok(self, p='zz'):
@@ -133,6 +134,37 @@ class Editor:
         if len(got) != len(want) or any(a is not b for a, b in zip(got, want)):
             self.lost.append(f'delete_index(obj): indexes afterwards {[getattr(x, "comment", None) for x in got]}, expected the list without '
                              f'the given object {[getattr(x, "comment", None) for x in want]}')
+
+    def writeback(self, owner):
+        """take the owner's note, edit it, assign the same object back"""
+        n = owner.note
+        n.text = self.tok('wb note ')
+        self.must.pop((id(owner), 'note'), None)
+        owner.note = n
+        if owner.note is not n:
+            self.lost.append(f'{type(owner).__name__}.note = <its own note object> reads back as another object')
+        self.expect_token(owner, 'note', n.text)
+        if id(owner) not in self.shared:
+            self.once.append(n.text)
+
+    def add_derived_enum(self, e):
+        """a new enum made from the items of an existing one: the item OBJECTS are shared on purpose (whatever is written
+        into one of them shows in both enums), the two item LISTS are not (an item added later belongs to one enum)"""
+        from pydbml.classes import Enum
+        for it in e.items:
+            self.shared.add(id(it))
+            self.keep.append(it)
+            for tokn in (it.name, it.note.text if it.note else None):
+                if tokn in self.once:
+                    self.once.remove(tokn)
+        self.db.add(Enum(self.tok('den'), e.items, schema=e.schema))
+
+    def add_enum_item(self, e):
+        """a new item belongs to the enum it was added to (and to no other)"""
+        from pydbml.classes import EnumItem
+        name = self.tok('it')
+        e.add_item(self.rng.choice([name, EnumItem(name, note=self.tok('n '))]))
+        self.once.append(name)
 
     def expr_inplace(self, c):
         """edit the text of an Expression default in place (gives the column one first if it has none)"""
@@ -202,6 +234,7 @@ class Editor:
                     ('alias-none', lambda: (self.set(t, 'alias', None), self.must.pop((id(t), 'alias'), None))),
                     ('table-note-replace', lambda: self.set(t, 'note', Note(self.tok('note ')))),
                     ('table-note-inplace', lambda: self.set(t.note, 'text', self.tok('note '))),
+                    ('table-note-writeback', lambda: self.writeback(t)),
                     ('table-color', lambda: self.set(t, 'header_color', rng.choice([None, '#abc', '#112233']))),
                     ('table-comment', lambda: self.set(t, 'comment', rng.choice([None, self.tok('cm ')]))),
                     ('add-column', lambda: t.add_column(Column(self.tok('nc'), rng.choice(['int', 'text']), pk=rng.random() < 0.2,
@@ -230,6 +263,7 @@ class Editor:
                     ('expression-default-inplace', lambda: self.expr_inplace(c)),
                     ('column-note-same-text-then-edit', lambda: self.note_same_text_then_edit(c)),
                     ('column-note-replace', lambda: self.set(c, 'note', Note(self.tok('cnote ')))),
+                    ('column-note-writeback', lambda: self.writeback(c)),
                     ('column-note-inplace', lambda: self.set(c.note, 'text', self.tok('cnote '))),
                     ('column-comment', lambda: self.set(c, 'comment', rng.choice([None, self.tok('cc ')])))]
             if E:
@@ -237,7 +271,9 @@ class Editor:
         if E:
             e = rng.choice(E)
             out += [('rename-enum', rename(e, 'name')), ('rename-enum-schema', rename(e, 'schema')),
-                    ('add-enum-item', lambda: e.add_item(rng.choice([self.tok('it'), EnumItem(self.tok('it'), note=self.tok('n '))]))),
+                    ('add-enum-item', lambda: self.add_enum_item(e)),
+                    ('add-derived-enum', lambda: self.add_derived_enum(e)),
+                    ('enum-note-writeback', lambda: self.writeback(rng.choice(e.items))),
                     ('rename-enum-item', rename(rng.choice(e.items), 'name')),
                     ('enum-item-note', lambda: self.set(rng.choice(e.items), 'note', Note(self.tok('einote '))))]
         if R:
